@@ -25,12 +25,13 @@ from props.c18 import build, net_line, ref_component, ref_minimax, _fmt, _exc
 from translate import graph as graph_tr
 
 PROP = "C17"
-LEAN_MODULE = "TopSearch.Props.C17"
-LEAN_FILES = ["TopSearch.Props.C17", "TopSearch.Lemmas.Graph", "TopSearch.Model.Graph",
+LEAN_MODULE = "TopSearch.Props.C17Barrier"
+LEAN_FILES = ["TopSearch.Props.C17", "TopSearch.Props.C17Barrier", "TopSearch.Props.C18Minimax", "TopSearch.Lemmas.Graph", "TopSearch.Model.Graph",
               "TopSearch.Model.Batch"]
 EXTRA_TARGETS = ["TopSearch.Gen.Graph", "TopSearch.Model.Batch"]
 _P = "TopSearch.Props.C17."
 REQUIRED = [_P + n for n in [
+    "height_lt_minimax", "C17_barrier_true_barrier",
     "C17_bridge_bcfg",
     "C17_no_excluded",
     "C17_no_repeat",
